@@ -23,7 +23,7 @@ CLAIMED = {
              "OCRelay.protection_function (all relay types and curve types, both scenarios) related by i1 <= i2: trip time non-increasing "
              "over the extended reals, trip <=> current exceeds pick-up/start, activation value = own switch current of the chosen result "
              "table, ValueError for other scenarios; Fuse.__init__ from a standard type establishes i_start_a/i_stop_a = min/max of the x "
-             "data of the characteristic it evaluates for every curve selection.",
+             "data of the characteristic it evaluates for every curve selection. The history 'evaluate, re-parameterise, evaluate' of one fuse only as a bounded native stand-in.",
         note="Assumed (hypotheses of the statement): characteristic callable non-increasing and non-negative on [i_start, i_stop]; consistently "
              "graded relay settings; x**alpha monotone for alpha > 0. Not decided: scipy interpolation itself, time_grading/"
              "create_protection_function."),
@@ -48,7 +48,7 @@ CLAIMED = {
         text="Proof: _update_contingency_results_parallel in both call modes satisfies, for a generic row, the same step specification "
              "that the sequential _update_contingency_results is proved against (C14) with the tripped element's own row and "
              "out-of-service rows excluded, hence equal folds for equal task order; the worker _run_single_contingency evaluates a copy "
-             "(caller's table object and cells untouched on normal and exceptional exit) and returns the result columns of that copy.",
+             "(caller's table object and cells untouched on normal and exceptional exit) and returns the result columns of that copy. The task list of the parallel path (which cases, in which order) only as a bounded native stand-in (exact ties, unsorted index).",
         note="Assumed: multiprocessing.Pool.map preserves task order (completion order is irrelevant to it); copy/deepcopy semantics; "
              "evaluation function pure. Not decided: the power flows."),
     "C30": dict(
@@ -158,7 +158,7 @@ CLAIMED = {
              "sign*PG <= max_p + delta, same for Q, for every point), setpoints PG/QG = sign * p/q * scaling, the result written back "
              "is sign * PG of the element's own row; gens: PG, VG, Q box, non-controllable gens fixed at p_mw and vm_pu; the voltage "
              "range of a gen bus is the intersection of the bus limits and the gen's own min_vm_pu / max_vm_pu (own bus, own values); "
-             "only the element's block of ppc['gen'] is written. DC OPF (opf_setup, DC model, with stubs for the model object): the two flow constraints of a rated branch are Bf Va <= RATE_A/S_base - Pfinj and -Bf Va <= RATE_A/S_base + Pfinj (limit on the flow including the phase-shift offset), exactly on the rated branches.",
+             "only the element's block of ppc['gen'] is written. DC OPF (opf_setup, DC model, with stubs for the model object): the two flow constraints of a rated branch are Bf Va <= RATE_A/S_base - Pfinj and -Bf Va <= RATE_A/S_base + Pfinj (limit on the flow including the phase-shift offset), exactly on the rated branches. A bounded native stand-in checks that the OPF result of a lossy dcline is an operating point of the dcline model of the power flow.",
         note="Assumed: A-SOLVE (the interior point solver returns a point of the box it is given), A-LOOKUP (block layout of "
              "ppc['gen']). Not decided: solver, branch loading / dcline / plain bus voltage constraints, DC OPF, power flow replay of "
              "the dispatch."),
@@ -202,7 +202,7 @@ CLAIMED = {
              "transformers / three-winding transformers (codes l / t / t3) are selected for removal; proof for the generic row of the "
              "referencing tables on the real reindex_elements (line, trafo, trafo3w, gen, load): switch, measurement and cost "
              "references to re-indexed elements are mapped through the lookup, all others unchanged. The result-table index after "
-             "reindex_elements is the recorded known finding. Other edits: bounded stand-in (native edits of one fixed network). drop_elements_simple also drops the measurements and cost rows of the dropped elements. The bounded native stand-in covers 12 edit operations incl. select_subnet and drop_inactive_elements with costs on several element types.",
+             "reindex_elements is the recorded known finding. Other edits: bounded stand-in (native edits of one fixed network). drop_elements_simple also drops the measurements and cost rows of the dropped elements. The bounded native stand-in covers 12 edit operations incl. select_subnet and drop_inactive_elements with costs on several element types. _inner_branches('drop') reduces every branch table through the drop function of its own kind (drop_trafos with its own table, no bare DataFrame.drop); measurements of every element type follow reindex_elements.",
         note="Assumed: pandas drop / set_index / .loc stores, get_indices = map through the lookup. Not decided deductively: fuse_buses, "
              "select_subnet, merge_nets, reindex_buses, replace_*, controller and characteristic references, group links in reindex."),
     "C26": dict(
@@ -229,7 +229,7 @@ CLAIMED = {
         text="Proof for the generic switch / bus (real text): create_bus_lookup re-derives net._impedance_bb_switches from the current "
              "switch table (closed bus-bus switch between in-service buses with z_ohm > 0) whatever value a previous calculation left "
              "in the attribute, on the numba and numpy paths; get_voltage_init_vector(init='results') returns a start vector without "
-             "NaN: the previous result where there is one, flat start otherwise, and does not write the result table. _powerflow: the conversion of every calculation (AC / DC, flat start / from results) starts from lookups created in that call -- no lookup of an earlier calculation survives.",
+             "NaN: the previous result where there is one, flat start otherwise, and does not write the result table. _powerflow: the conversion of every calculation (AC / DC, flat start / from results) starts from lookups created in that call -- no lookup of an earlier calculation survives. _powerflow re-initialises the result tables unless the calculation starts from previous results (AC and DC). A bounded native stand-in replays histories of one net object against fresh copies (incl. calc_sc without connectivity check after machines were switched off).",
         note="Assumed: the bus fusing helpers compute from the current tables. Not decided: the remaining cached state (rebuilt by "
              "_pd2ppc, covered by the C08 frame contracts; recycling: C12; options: C34), convergence of Newton from a nearby start."),
     "C23": dict(
@@ -239,7 +239,7 @@ CLAIMED = {
              "r * length = rft_pu * Z_N (x alike), no capacitance, parallel 1 - the inverse mapping; the real "
              "replace_xward_by_internal_elements creates a series impedance whose physical value is the xward's r_ohm / x_ohm for every "
              "net.sn_mva, and load / shunt / gen with the xward's values; the real select_subnet returns a new net carrying f_hz of "
-             "its source. drop_inactive_elements / drop_out_of_service_elements only as a bounded native stand-in (one feeder with an open-ended cable and a stub line at an out-of-service bus), labelled bounded.",
+             "its source. drop_inactive_elements / drop_out_of_service_elements only as a bounded native stand-in (one feeder with an open-ended cable and a stub line at an out-of-service bus), labelled bounded. drop_out_of_service_elements protects the buses of every branch end; an impedance with symmetric shunt admittances becomes a line with the same shunt part. A further bounded native stand-in covers select_subnet / drop_inactive_elements around a three-winding transformer with an isolated side and the impedance with shunt part.",
         note="Assumed: the create functions store their arguments; the line pi model (C02). Not decided: ext_grid -> gen, ward "
              "replacement, merge_nets, the element selection of select_subnet, drop_inactive_elements, fuse_buses, "
              "merge_parallel_line, result / profile / group adaptation."),
@@ -248,7 +248,7 @@ CLAIMED = {
              "_calc_rx reads Zbus when inverse_y else ybus_fact, and the real _kappa_method_c hands it an equivalent-frequency copy "
              "whose Zbus / ybus_fact is the inverse / factorisation of that copy's own Ybus for both values of inverse_y (so the two "
              "options describe the same network). The IEC relations of the results (ikss, skss, 2ph/3ph ratio, ip) are only a bounded "
-             "stand-in (native calc_sc runs on one fixed meshed network), labelled bounded. Network feeders (_add_ext_grid_sc_impedance, cases max / min): y * S_base with y (r + j x) = 1, |r + j x| = c / (s_sc / S_base), r / x = rx with the voltage factor of the feeder's own node; the admittances of all in-service ext_grids at a node are added once per node through the distinct keys of the grouping.",
+             "stand-in (native calc_sc runs on one fixed meshed network), labelled bounded. Network feeders (_add_ext_grid_sc_impedance, cases max / min): y * S_base with y (r + j x) = 1, |r + j x| = c / (s_sc / S_base), r / x = rx with the voltage factor of the feeder's own node; the admittances of all in-service ext_grids at a node are added once per node through the distinct keys of the grouping. _add_sgen_sc_z adds (never assigns) the admittances of asynchronous / doubly-fed sgens to their nodes. A bounded native stand-in covers several sources at one node (two generators in both row orders, sgen at a feeder bus, two feeders).",
         note="Assumed: scipy inv / factorized, makeYbus (C02). Not decided deductively: currents.py (2-D complex arrays), independence "
              "of sn_mva and of the set of faulted buses, kappa method B."),
     "C07": dict(
@@ -257,7 +257,7 @@ CLAIMED = {
              "_set_buses_out_of_service gives NaN voltage and zero load exactly to the ppc buses of type NONE and touches nothing else; "
              "elements not in service report zero power (shared with C16/C04). The connectivity search, the re-routing of lines at "
              "out-of-service buses and the equality with topology.unsupplied_buses are only a bounded stand-in (native power flows on "
-             "four fixed networks), labelled bounded.",
+             "four fixed networks), labelled bounded. A second bounded native stand-in covers a part of the network connected only through an out-of-service bus (rundcpp / runpp), voltage dependent loads at dead buses and an out-of-service ext_grid next to a slack gen.",
         note="Assumed: numba compiles the Python text of the loops. Not decided deductively: _check_connectivity (scipy csgraph), "
              "_branches_with_oos_buses."),
     "C10": dict(
@@ -281,7 +281,7 @@ CLAIMED = {
              "exactly the detached elements from rows of that element type - for index groups members' = members minus D, for "
              "reference-column groups only reference values of detached elements that exist in the element table - leaves other rows "
              "unchanged and keeps a row iff it still has members; the real drop_elements_at_buses detaches the elements while their "
-             "rows are still in the element table and drops them afterwards (ghost table versions).",
+             "rows are still in the element table and drops them afterwards (ghost table versions). drop_switches_at_buses and drop_measurements_at_elements detach the rows they drop from the groups first. A bounded native stand-in covers attach_to_group to a later group, the drop_buses cascade over switches / measurements and reindex_elements for a part of the elements, against a set model.",
         note="Assumed: pandas Index.difference / intersection are set operations. Not decided: attach_to_group(s), group_element_index, "
              "in/out-of-service and result functions, reindexing of group members, create_group."),
     "C11": dict(
